@@ -54,6 +54,8 @@ thread_local! {
     static FORMATTERS: RefCell<HashMap<Cfg, std::rc::Rc<Formatter>>> = RefCell::new(HashMap::new());
 }
 
+pub static LAST_PANIC_GLOBAL: std::sync::Mutex<String> = std::sync::Mutex::new(String::new());
+
 struct Bounded {
     buf: String,
     cap: usize,
@@ -111,6 +113,9 @@ pub fn init() {
             "<non-string panic payload>".to_string()
         };
         let loc = info.location().map(|l| format!("{}:{}", l.file(), l.line())).unwrap_or_default();
+        if let Ok(mut g) = LAST_PANIC_GLOBAL.lock() {
+            *g = format!("{msg} at {loc}");
+        }
         LAST_PANIC.with(|p| *p.borrow_mut() = Some((msg, loc)));
     }));
 }
